@@ -547,6 +547,10 @@ class SkelEval(Eval):
             if self.truth(c):
                 self.arms.add((id(t), i))
                 return self.ev(v)
+        import os
+        if os.environ.get('SKEL_DEBUG'):
+            import engine_ogp as E_
+            print('NO ARM', [E_.show(c, maxdepth=6) for c, v in t[1]][:8], file=__import__('sys').stderr)
         raise Diverge('no arm matches', 0)
 
     def ev_mcall(self, t):
